@@ -712,7 +712,6 @@ class unyt_array(np.ndarray):
                     new_units, self.dtype
                 )
 
-            self.units = new_units
             values = self.d
             # if our dtype is an integer do the following somewhat awkward
             # dance to change the dtype in-place. We can't use astype
@@ -748,6 +747,9 @@ class unyt_array(np.ndarray):
 
             if offset:
                 np.subtract(values, offset, values)
+            # only relabel once the data has actually been converted, so that a
+            # failed conversion leaves the array as it was
+            self.units = new_units
         else:
             self.convert_to_equivalent(units, equivalence, **kwargs)
 
